@@ -6,13 +6,20 @@ They are kept out of the main generator because gogen (pinned dependency, outsid
 constant value through a conversion — three probe sites are known findings — and would otherwise mask everything
 else through constant folding (`"" < string(rune(104))` is folded to `false`). Composite literals of named types in
 statement headers are rare in the generator for the same reason (gogen drops the parentheses: three known sites).
-Round-0 deviation: the plan built one binary per program; the dispatcher binary replaced it (cost).""",
+Round-0 deviation: the plan built one binary per program; the dispatcher binary replaced it (cost).
+Every program also contains `tLate`, a function that uses package-level names declared after `main` next to locals of
+the same names: this exposed a scoping defect (a function loaded on demand saw the referring function's locals — fixed,
+854b26b); the same leak for package-level *variable initialisers* cannot be repaired in cl alone and is a probe with a
+known finding (`late-package-var-initializer`). After the seeded change switch clauses are sometimes empty or
+fallthrough-only.""",
 "C02": """Q 40 programs × 14 statements / T 1 500. The generator writes the XGo statement and its Go expansion side by side;
 traces (`tr`, `src`, `pr`) make evaluation order and count observable. No defect found on the unchanged tree.""",
 "C03": """Q 48 programs × 8 scenarios / T 1 600. Three defects found: `f()?` as a statement left a bare `_autoGo_1`
 statement (fixed), `a, b := two()?` was rejected (fixed), `g(two()?)` with a multi-value call is rejected (known
 finding, probe `question-operator-call-forwarded-as-arguments`: repairing it means reworking the argument/overload
-matching loop). `?` in an if header is not generated: the in-place expansion cannot live there and the position is
+matching loop; `for v <- many()?` puts the expansion inside the loop body, probe
+`question-operator-in-range-source`). Operands also span several lines (`multi-line-call`: the frame must name the
+line the operand starts on). `?` in an if header is not generated: the in-place expansion cannot live there and the position is
 not in the property's list (statement, assignment, argument).""",
 "C04": """Q 40 programs × 5 ranges × 9 contexts / T 1 500. Finding: every for-loop context enumerates nothing (or runs away)
 for a negative step while comprehensions use the runtime range object and descend correctly — six known sites, one
@@ -33,7 +40,10 @@ go/types rejects too, and near-misses of XGo-only programs, are two family sites
 list of repository snippets that compile but are not valid Go is listed by Go message class (`corpus:*`). The Go
 message classes observed are counted in the evidence (`go-rejection-class:*`).""",
 "C07": """Q ≈3 500 packages / T ≈122 000 through cl.NewPackage+WriteTo and x/build; one defect fixed (bodiless function
-declaration made WriteTo panic).""",
+declaration made WriteTo panic). A third of the cases compile with an x/typesutil recorder attached (Config.Recorder
+changes which code runs, e.g. goxRecorder.Complete in a defer) and a case kind draws unusual declaration shapes
+(overload declarations with every receiver spelling and candidate-list form) — both added after a seeded change was
+missed.""",
 "C08": """Q 700 packages × (5 in-process + 1 other-process compilations) / T 20 000. One known finding: gogen reports
 "label X defined and not used" in map-iteration order. An ad-hoc mutant (files sorted by name length instead of
 name) is caught in all package kinds.""",
@@ -66,7 +76,9 @@ automatic semicolon).""",
 "C19": """Comment injection belongs to C21's quantifier only and was removed from C19/C20 (false alarm: a comment moved
 across a token is 'comment placement'). Parentheses, empty statements and number spelling are normalised in the
 comparison (gofmt conventions the property calls 'equal except positions').""",
-"C20": "One known finding (`format:not-idempotent:in:BlockStmt<LambdaExpr2<SliceLit`).",
+"C20": """One known finding (`format:not-idempotent:in:BlockStmt<LambdaExpr2<SliceLit`). After a seeded change was missed the
+workload also formats *unformatted* spellings: tightened variants (optional blanks next to punctuation removed) and
+files of one-line functions whose printed width lies around the printer's 100-column limit.""",
 "C21": "One known finding (`format:comment-in:EnvExpr`).",
 "C22": """The generator is restricted to trees XGo can express without source-level parentheses chosen by the author
 (lambdas only as call arguments, brace/bracket literals not as postfix operands or left of `*`, no bare `x!` directly
@@ -76,7 +88,8 @@ reduced to the smallest sub-tree that fails in isolation (culprit-based site).""
 not part of it): per declaration the (name, path) set may only lose exact duplicates, and every run of specs on
 successive lines is sorted by unquoted path.""",
 "C24": "Three RearrangeFuncs defects fixed; one known finding (input without trailing newline).",
-"C25": """Q 60 programs / T 2 400. Four converter defects fixed (`strings.Map` → keyword, locals named like an import,
+"C25": """Q 60 programs / T 2 400. Five converter defects fixed (the fifth: `func() { return }` as an argument made the printer
+panic). Four of them: (`strings.Map` → keyword, locals named like an import,
 program functions named like a builtin, lambda passed to `append`). Go programs with `$` in string literals are
 outside the subset (documented deviation, C01). Two probe kinds stand alone (user function named like a builtin,
 local variable named like an import).""",
@@ -93,7 +106,9 @@ committed and reverted for that reason).""",
 an injected write failure also closes the pipe (a half-broken transport is not a state the real transports have).
 The `-race` binary needs the goroutine-state deadlock monitor (§1.7).""",
 "C40": "porcupine timeout = inconclusive; a lost wake-up is decided by the deadlock monitor.",
-"C41": "One reader per direction; closing the reading end may drop data its feeder already holds (inherent).",
+"C41": """One reader per direction; closing the reading end may drop data its feeder already holds (inherent). Every run keeps
+a Read pending on the closing side; pending calls must return and, when they fail, report io.EOF (added after a seeded
+change was missed).""",
 }
 
 FALSE_ALARMS = """
